@@ -159,7 +159,7 @@ def translated_obligations(prop, res):
         res["problems"].append({"kind": "translation", "detail": f"{type(e).__name__}: {e}"})
         return
     info["term_names"] = names
-    text += "\n#audit_ns DtsVerif.Gen\n#audit_ns DtsVerif.GenLayout\n#audit_ns DtsVerif.GenTime\n#audit_ns DtsVerif.GenGuards\n#audit_ns DtsVerif.GenShift\n#audit_ns DtsVerif.GenObs\n#audit_ns DtsVerif.GenReduce\n#audit_ns DtsVerif.GenDesign\n"
+    text += "\n#audit_ns DtsVerif.Gen\n#audit_ns DtsVerif.GenLayout\n#audit_ns DtsVerif.GenTime\n#audit_ns DtsVerif.GenGuards\n#audit_ns DtsVerif.GenShift\n#audit_ns DtsVerif.GenObs\n#audit_ns DtsVerif.GenReduce\n#audit_ns DtsVerif.GenDesign\n#audit_ns DtsVerif.GenScatter\n"
     text = text.replace("import DtsVerif.Props.C06\n", "import DtsVerif.Props.C06\nimport DtsVerif.AuditCmd\n", 1)
     olean = LEAN / ".lake" / "build" / "lib" / "lean" / "DtsVerif" / "Props" / "C06.olean"
     stamp = str(olean.stat().st_mtime_ns) if olean.exists() else "none"
